@@ -52,3 +52,12 @@ Example C13_skip_on_example :
     forallb (fun ng => forallb (fun bt => negb (mem (fst bt) [n_b])) (gcomps (snd ng))) gs' = true.
 Proof. exact ex_skip. Qed.
 Print Assumptions C13_skip_on_example.
+
+(* ---- a non-exported glyph is absent from the character map's variation sequences too: the loop of setupTable_cmap AS TRANSLATED
+   from /repo's current source (Generated/Imp.v, Order/UvsTied.v) names glyphs of the compiled glyph set only ---- *)
+From U2F Require Import Order.GlyphOrder Order.Uvs Generated.Imp Order.UvsTied.
+
+Theorem C13_code_variation_sequences_name_exported_glyphs_only : forall gs m (src : uvs_src) vs l x g,
+  NoDup (map fst src) -> In (vs, l) (tr_uvs gs m src) -> In x l -> snd x = Some g -> mem g gs = true.
+Proof. exact code_uvs_names_exported_glyphs_only. Qed.
+Print Assumptions C13_code_variation_sequences_name_exported_glyphs_only.
